@@ -162,6 +162,14 @@ pub fn run(a: &Args) {
     for k in 0..(if thorough { 40 } else { 8 }) {
         files.push((format!("bad-filter-{}", k), bad_filter_png(&mut rng, k % 2 == 1), None));
     }
+    // a truncated stream whose pending back-reference completes rows in the very call that reports the corruption (inflater output buffer
+    // exactly full: 2 literals + 127 matches of 258 bytes = 32768): no row of that frame may be delivered afterwards
+    for (w, h, matches) in [(33000u32, 1u32, 128usize), (32767, 1, 127), (16383, 3, 128), (255, 200, 128), (63, 600, 129), (65535, 1, 200)] {
+        use crate::pngbuild::*;
+        let z = crate::c01::zlib_fixed_run_truncated(&[0, 0x55], matches);
+        let bytes = assemble(&[ihdr(w, h, 8, 0, 0), Chunk::new(b"IDAT", z), Chunk::new(b"IEND", vec![])]);
+        files.push((format!("pending-match-at-full-buffer-{}x{}-{}", w, h, matches), bytes, None));
+    }
     // bytes behind IEND: further chunks (even a complete frame) must never be decoded, at either level
     for k in 0..(if thorough { 24 } else { 6 }) {
         use crate::pngbuild::*;
